@@ -350,6 +350,25 @@ func (e *Engine) resolveReads(f *SpecFn) {
 	}
 	f.resolved = true
 	for _, r := range f.Reads {
+		if strings.Contains(r, ":") {
+			// raw heap key: MD:<keysort>, MV:<keysort>:<valsort>, G:<ghost>
+			parts := strings.Split(r, ":")
+			var srt string
+			switch {
+			case parts[0] == "MD" && len(parts) == 2:
+				srt = "(Array Int (Array " + parts[1] + " Bool))"
+			case parts[0] == "MV" && len(parts) == 3:
+				srt = "(Array Int (Array " + parts[1] + " " + parts[2] + "))"
+			case parts[0] == "G" && len(parts) == 2 && e.g.ghosts[parts[1]] != nil:
+				_, srt = ghostKey(e.g.ghosts[parts[1]])
+			default:
+				e.loadErrs = append(e.loadErrs, "spec "+f.Name+": bad reads clause "+r)
+				continue
+			}
+			f.Heaps = append(f.Heaps, r)
+			f.HeapSorts = append(f.HeapSorts, srt)
+			continue
+		}
 		i := strings.LastIndex(r, ".")
 		if i < 0 {
 			e.loadErrs = append(e.loadErrs, "spec "+f.Name+": bad reads clause "+r)
@@ -483,6 +502,15 @@ func (e *Engine) quantifyHeaps(s string, hv func() (n, srt, key []string)) strin
 		j := matchParenAt(s, len("(forall "))
 		vars := s[len("(forall (") : j]
 		body := strings.TrimSpace(s[j+1 : len(s)-1])
+		if strings.HasPrefix(body, "(! ") {
+			k := matchParenAt(body, 3)
+			if body[3] != '(' {
+				k = 3 + strings.IndexAny(body[3:], " ") - 1
+			}
+			inner := body[3 : k+1]
+			body = "(! " + implies(and(wts...), inner) + body[k+1:]
+			return "(forall (" + strings.Join(binds, " ") + " " + vars + ") " + body + ")"
+		}
 		return "(forall (" + strings.Join(binds, " ") + " " + vars + ") " + implies(and(wts...), body) + ")"
 	}
 	return "(forall (" + strings.Join(binds, " ") + ") " + implies(and(wts...), s) + ")"
